@@ -9,7 +9,8 @@ case = dict(A, P, N, wtt_us, stop_us, ends, horizon_us, ack_type, msgs=[dict(at,
             dur = -1: never ends)
        sc["fmt"]: formatter / serializer of the broker; sc["mws"]: extra recording middlewares
        sc["late"], sc["shared_default"], m["task"]: tasks registered late / through the shared broker / on another broker
-            (recv_props.decorate_reg); entries of sc["late"] with role designated / shadowed + shape: ONE task name registered with
+            (recv_props.decorate_reg); m["early"] + a sc["late"] entry with early: the message arrives BEFORE the task it names is
+            registered while listen() runs (recv_props.decorate_early; nothing to do here: `when = at` + m["task"]); entries of sc["late"] with role designated / shadowed + shape: ONE task name registered with
             two different functions (recv_props.decorate_dup) - the function find_task designates logs body.in / body.out, the other
             one shadow.in / shadow.out; sc["live"]: the real run_receiver_task coroutine runs for the whole scenario over a
             listen() that fails at scripted points (recv_props.gen_live) - raw log: SESSION s (Receiver.listen called), LISTEN s, TAKE i s,
